@@ -37,6 +37,10 @@ impl<'a> WireFormat<'a> for CAA<'a> {
     where
         Self: Sized,
     {
+        if data.len() < *position + 1 {
+            return Err(crate::SimpleDnsError::InsufficientData);
+        }
+
         let flag = u8::from_be_bytes(data[*position..*position + 1].try_into()?);
         *position += 1;
         let tag = CharacterString::parse(data, position)?;
